@@ -179,9 +179,9 @@ def strategies(profile, max_ops=40):
         if mid_cancel:
             at = mid_cancel % len(steps) + 1
             extra = [['cancel', 0, cg if nest else 0]]
-            if nest >= 2 and cpu % 2 == 0:
-                # a second cancel one level further down (beneath the group just cancelled) or, wrapping round, further up
-                extra.append(['cancel', 0, (cg + 1) % (nest + 1)])
+            if nest >= 1 and cpu % 2 == 0:
+                # ancestor first, then the group right beneath it (chain-relative: index -1 is the deepest group of the chain)
+                extra = [['cancel', 0, 0 if nest == 1 else -2], ['cancel', 0, -1]]
             if under is not None and nest in (1, 2) and under[0] % 2:
                 # aimed: an update is opened, THEN an ancestor (the batch root: groups nest two levels deep at most) of the group it
                 # targets is cancelled, then its bunches arrive: the target is only a descendant of the cancelled group
